@@ -243,3 +243,93 @@ Definition conforms (G : gdata) (t : tracker) (i : inst) : bool :=
 (** no OpSpecConstantOp nesting *)
 Definition no_specop (i : inst) : bool :=
   forallb (fun o => match o with OSpecOp _ => false | _ => true end) (i_ops i).
+
+(** ---- concrete instructions against the linked tables of this run ---- *)
+From RV Require Inst.Linked.
+
+Module Examples.
+Import Inst.Linked.
+Definition mk_inst opc rt rid ops : inst := {| i_opcode := opc; i_rtype := rt; i_rid := rid; i_ops := ops |}.
+Definition K (name : string) : N := kidx name.
+
+(* %7 = OpTypeInt 32 1 *)
+Example ex_type_int : conforms G [] (mk_inst 21 None (Some 7) [OLit32 32; OLit32 1]) = true.
+Proof. vm_compute. reflexivity. Qed.
+(* a required operand missing / one too many *)
+Example ex_type_int_short : conforms G [] (mk_inst 21 None (Some 7) [OLit32 32]) = false.
+Proof. vm_compute. reflexivity. Qed.
+Example ex_type_int_long : conforms G [] (mk_inst 21 None (Some 7) [OLit32 32; OLit32 1; OLit32 0]) = false.
+Proof. vm_compute. reflexivity. Qed.
+(* a result type the grammar does not have *)
+Example ex_type_int_rt : conforms G [] (mk_inst 21 (Some 1) (Some 7) [OLit32 32; OLit32 1]) = false.
+Proof. vm_compute. reflexivity. Qed.
+
+(* OpDecorate %5 BuiltIn Position : the decoration's parameter follows *)
+Example ex_decorate_builtin :
+  conforms G [] (mk_inst 71 None None [OIdRef 5; OEnum (K "Decoration") 11; OEnum (K "BuiltIn") 0]) = true.
+Proof. vm_compute. reflexivity. Qed.
+(* OpDecorate %5 SpecId 3 *)
+Example ex_decorate_specid :
+  conforms G [] (mk_inst 71 None None [OIdRef 5; OEnum (K "Decoration") 1; OLit32 3]) = true.
+Proof. vm_compute. reflexivity. Qed.
+(* parameter missing / parameter for a decoration without one (RelaxedPrecision) *)
+Example ex_decorate_noparam :
+  conforms G [] (mk_inst 71 None None [OIdRef 5; OEnum (K "Decoration") 11]) = false.
+Proof. vm_compute. reflexivity. Qed.
+Example ex_decorate_relaxed :
+  conforms G [] (mk_inst 71 None None [OIdRef 5; OEnum (K "Decoration") 0]) = true
+  /\ conforms G [] (mk_inst 71 None None [OIdRef 5; OEnum (K "Decoration") 0; OLit32 3]) = false.
+Proof. split; vm_compute; reflexivity. Qed.
+(* an undeclared enumerant *)
+Example ex_decorate_unknown :
+  conforms G [] (mk_inst 71 None None [OIdRef 5; OEnum (K "Decoration") 99999]) = false.
+Proof. vm_compute. reflexivity. Qed.
+Example ex_kind_operands :
+  kind_operands G (K "Decoration") [OEnum (K "Decoration") 11; OEnum (K "BuiltIn") 0].
+Proof. vm_compute. reflexivity. Qed.
+
+(* OpSource GLSL 450 [file] [source text] *)
+Example ex_source_bare :
+  conforms G [] (mk_inst 3 None None [OEnum (K "SourceLanguage") 2; OLit32 450]) = true.
+Proof. vm_compute. reflexivity. Qed.
+Example ex_source_file_text :
+  conforms G [] (mk_inst 3 None None [OEnum (K "SourceLanguage") 2; OLit32 450; OIdRef 1;
+                                     OStr [118; 111; 105; 100; 32; 109; 40; 41]]) = true.
+Proof. vm_compute. reflexivity. Qed.
+(* the optional string cannot come without the optional file before it; no NUL inside a string *)
+Example ex_source_skip :
+  conforms G [] (mk_inst 3 None None [OEnum (K "SourceLanguage") 2; OLit32 450; OStr [97]]) = false.
+Proof. vm_compute. reflexivity. Qed.
+Example ex_source_nul :
+  conforms G [] (mk_inst 3 None None [OEnum (K "SourceLanguage") 2; OLit32 450; OIdRef 1; OStr [97; 0; 98]]) = false.
+Proof. vm_compute. reflexivity. Qed.
+
+(* OpEntryPoint Fragment %4 "main" %9 %10 : string, then any number of ids *)
+Example ex_entry_point :
+  conforms G [] (mk_inst 15 None None [OEnum (K "ExecutionModel") 4; OIdRef 4; OStr [109; 97; 105; 110];
+                                      OIdRef 9; OIdRef 10]) = true
+  /\ conforms G [] (mk_inst 15 None None [OEnum (K "ExecutionModel") 4; OIdRef 4; OStr [109; 97; 105; 110]]) = true.
+Proof. split; vm_compute; reflexivity. Qed.
+
+(* %2 = OpConstant %1 5000000000 with %1 a 64-bit integer type in the tracker *)
+Example ex_constant64 :
+  conforms G [(1, TInt 64 false)] (mk_inst 43 (Some 1) (Some 2) [OLit64 5000000000]) = true
+  /\ conforms G [(1, TInt 64 false)] (mk_inst 43 (Some 1) (Some 2) [OLit32 5]) = false
+  /\ conforms G [(1, TInt 32 false)] (mk_inst 43 (Some 1) (Some 2) [OLit32 5]) = true
+  /\ conforms G [(1, TInt 32 false)] (mk_inst 43 (Some 1) (Some 2) [OLit64 5000000000]) = false
+  /\ conforms G [(1, TInt 128 false)] (mk_inst 43 (Some 1) (Some 2) [OLit32 5]) = false.
+Proof. repeat split; vm_compute; reflexivity. Qed.
+
+(* OpSwitch %3 %20 1 %21 2 %22 : literal width by the selector's type *)
+Example ex_switch :
+  conforms G [(3, TInt 32 false)] (mk_inst 251 None None [OIdRef 3; OIdRef 20; OLit32 1; OIdRef 21; OLit32 2; OIdRef 22]) = true
+  /\ conforms G [(3, TInt 64 false)] (mk_inst 251 None None [OIdRef 3; OIdRef 20; OLit64 1; OIdRef 21]) = true
+  /\ conforms G [(3, TInt 32 false)] (mk_inst 251 None None [OIdRef 3; OIdRef 20; OLit32 1]) = false.
+Proof. repeat split; vm_compute; reflexivity. Qed.
+
+(* %9 = OpSpecConstantOp %1 IAdd %3 %4 *)
+Example ex_spec_constant_op :
+  conforms G [] (mk_inst 52 (Some 1) (Some 9) [OSpecOp 128; OIdRef 3; OIdRef 4]) = true
+  /\ conforms G [] (mk_inst 52 (Some 1) (Some 9) [OSpecOp 128; OIdRef 3]) = false.
+Proof. split; vm_compute; reflexivity. Qed.
+End Examples.
